@@ -274,6 +274,210 @@ class CFG(object):
                 todo.append(s)
         return None
 
+    # -- path-sensitive search: the truth values of boolean locals are carried along the path ---------------------------------
+    def _untracked(self):
+        """Locals whose value cannot be followed statement by statement: rebound inside a nested function / lambda / class."""
+        out = set()
+        for n in ast.walk(self.func):
+            if n is not self.func and isinstance(n, (ast.FunctionDef, ast.AsyncFunctionDef, ast.Lambda, ast.ClassDef)):
+                for x in ast.walk(n):
+                    if isinstance(x, (ast.Nonlocal, ast.Global)):
+                        out |= set(x.names)
+        return out
+
+    @staticmethod
+    def _truth(e, env, assumed):
+        """Three-valued value of a test: True / False / None (unknown)."""
+        t = None
+        if assumed:
+            try:
+                t = ast.unparse(e)
+            except Exception:
+                t = None
+            if t in assumed:
+                return assumed[t]
+        if isinstance(e, ast.Name):
+            return env.get(e.id)
+        if isinstance(e, ast.Constant):
+            return bool(e.value)
+        if isinstance(e, ast.UnaryOp) and isinstance(e.op, ast.Not):
+            v = CFG._truth(e.operand, env, assumed)
+            return None if v is None else (not v)
+        if isinstance(e, ast.BoolOp):
+            vals = [CFG._truth(v, env, assumed) for v in e.values]
+            if isinstance(e.op, ast.And):
+                if any(v is False for v in vals):
+                    return False
+                return True if all(v is True for v in vals) else None
+            if any(v is True for v in vals):
+                return True
+            return False if all(v is False for v in vals) else None
+        if isinstance(e, ast.Compare) and len(e.ops) == 1 and isinstance(e.ops[0], (ast.Is, ast.IsNot)) and \
+                isinstance(e.left, ast.Name) and isinstance(e.comparators[0], ast.Constant) and e.comparators[0].value is None:
+            v = env.get('%s is None' % e.left.id)
+            if v is None:
+                return None
+            return v if isinstance(e.ops[0], ast.Is) else (not v)
+        return None
+
+    @staticmethod
+    def _assume(e, value, env, assumed):
+        """Refine ``env`` (in place) with the knowledge that the test evaluated to ``value``."""
+        if isinstance(e, ast.Name):
+            env[e.id] = value
+            if value:
+                env['%s is None' % e.id] = False
+        elif isinstance(e, ast.UnaryOp) and isinstance(e.op, ast.Not):
+            CFG._assume(e.operand, not value, env, assumed)
+        elif isinstance(e, ast.BoolOp):
+            conj = isinstance(e.op, ast.And)
+            if value == conj:          # every conjunct true / every disjunct false
+                for v in e.values:
+                    CFG._assume(v, value, env, assumed)
+            else:                       # exactly one operand undecided: it carries the outcome
+                und = [v for v in e.values if CFG._truth(v, env, assumed) is None]
+                if len(und) == 1:
+                    CFG._assume(und[0], value, env, assumed)
+        elif isinstance(e, ast.Compare) and len(e.ops) == 1 and isinstance(e.ops[0], (ast.Is, ast.IsNot)) and \
+                isinstance(e.left, ast.Name) and isinstance(e.comparators[0], ast.Constant) and e.comparators[0].value is None:
+            env['%s is None' % e.left.id] = value if isinstance(e.ops[0], ast.Is) else (not value)
+
+    @staticmethod
+    def _kill(env, names):
+        for nm in names:
+            env.pop(nm, None)
+            env.pop('%s is None' % nm, None)
+
+    def _transfer(self, n, env, exceptional):
+        """Effect of the node's own statement on the tracked locals."""
+        st = self.stmt[n]
+        kind = self.kind[n]
+        if st is None:
+            return
+        if kind == 'stmt':
+            if isinstance(st, ast.Assign):
+                for t in st.targets:
+                    if isinstance(t, ast.Name):
+                        self._kill(env, [t.id])
+                        if exceptional:
+                            continue
+                        v = st.value
+                        if isinstance(v, ast.Constant):
+                            env[t.id] = bool(v.value)
+                            env['%s is None' % t.id] = v.value is None
+                        elif isinstance(v, (ast.List, ast.Tuple, ast.Dict, ast.Set, ast.ListComp, ast.DictComp, ast.SetComp,
+                                            ast.JoinedStr, ast.Lambda, ast.GeneratorExp)):
+                            env['%s is None' % t.id] = False
+                            if isinstance(v, (ast.List, ast.Tuple, ast.Dict, ast.Set)):
+                                env[t.id] = bool(v.elts if not isinstance(v, ast.Dict) else v.keys)
+                        elif isinstance(v, ast.Name) and not exceptional:
+                            for k in (v.id, '%s is None' % v.id):
+                                if k in env:
+                                    env[k.replace(v.id, t.id, 1)] = env[k]
+                    else:
+                        self._kill(env, [x.id for x in ast.walk(t) if isinstance(x, ast.Name) and isinstance(x.ctx, ast.Store)])
+            elif isinstance(st, (ast.AugAssign, ast.AnnAssign)):
+                self._kill(env, [x.id for x in ast.walk(st.target) if isinstance(x, ast.Name)])
+            elif isinstance(st, ast.Delete):
+                self._kill(env, [x.id for t in st.targets for x in ast.walk(t) if isinstance(x, ast.Name)])
+            elif isinstance(st, (ast.Import, ast.ImportFrom)):
+                self._kill(env, [(a.asname or a.name).split('.')[0] for a in st.names])
+            # walrus targets anywhere in the statement
+            self._kill(env, [x.target.id for x in ast.walk(st) if isinstance(x, ast.NamedExpr) and isinstance(x.target, ast.Name)])
+        elif kind == 'for':
+            self._kill(env, [x.id for x in ast.walk(st.target) if isinstance(x, ast.Name)])
+        elif kind == 'with':
+            for it in st.items:
+                if it.optional_vars is not None:
+                    self._kill(env, [x.id for x in ast.walk(it.optional_vars) if isinstance(x, ast.Name)])
+        elif kind == 'except':
+            if getattr(st, 'name', None):
+                self._kill(env, [st.name])
+        elif kind == 'def':
+            self._kill(env, [st.name])
+        elif kind in ('if', 'while', 'return'):
+            e = st.test if kind != 'return' else st.value
+            if e is not None:
+                self._kill(env, [x.target.id for x in ast.walk(e) if isinstance(x, ast.NamedExpr) and isinstance(x.target, ast.Name)])
+
+    def feasible_path(self, start, goal, avoid=(), labels_excluded=(), pruned_edges=(), assumed=None, max_states=20000):
+        """Like ``path_avoiding``, but a path is followed only as long as the truth values of the function's boolean locals
+        allow it: constants bound to plain locals, and what the outcome of an ``if`` / ``while`` test says about the locals it
+        names, are carried along, and an edge whose test is then known to come out the other way is not taken.  ``assumed``
+        ({expression text: bool}) fixes the outcome of tests the caller wants decided (hub presence).  Everything not tracked
+        is unknown, so every really feasible path is still found: a None answer means there is none.
+        The environments in which ``start`` can be reached (from the entry) are the starting points."""
+        avoid = set(avoid)
+        pruned = set(pruned_edges)
+        untracked = self._untracked()
+        assumed = dict(assumed or {})
+
+        def step(n, env, restrict=True):
+            """[(successor, label, env')] for the feasible out-edges of n."""
+            out = []
+            st, kind = self.stmt[n], self.kind[n]
+            for (s, lab) in self.succ[n]:
+                if restrict and (lab in labels_excluded or (n, s, lab) in pruned or (n, lab) in pruned):
+                    continue
+                e2 = dict(env)
+                self._transfer(n, e2, exceptional=lab in ('exc', 'raise'))
+                if kind in ('if', 'while') and lab in ('true', 'false'):
+                    want = lab == 'true'
+                    v = self._truth(st.test, e2, assumed)
+                    if v is not None and v != want:
+                        continue
+                    self._assume(st.test, want, e2, assumed)
+                for u in untracked:
+                    self._kill(e2, [u])
+                out.append((s, lab, e2))
+            return out
+
+        def key(n, env):
+            return (n, frozenset(env.items()))
+        # phase 1: the environments in which start is reached
+        starts = []
+        if start == ENTRY:
+            starts = [{}]
+        else:
+            seen = {key(ENTRY, {})}
+            todo = [(ENTRY, {})]
+            while todo and len(seen) < max_states:
+                n, env = todo.pop()
+                for s, lab, e2 in step(n, env, restrict=False):
+                    k = key(s, e2)
+                    if k in seen:
+                        continue
+                    seen.add(k)
+                    if s == start and e2 not in starts:
+                        starts.append(e2)
+                    todo.append((s, e2))
+            if not starts or len(seen) >= max_states:
+                starts = [{}]
+        # phase 2: from start to goal
+        for env0 in starts:
+            k0 = key(start, env0)
+            prev = {k0: None}
+            todo = [(start, env0)]
+            while todo:
+                n, env = todo.pop(0)
+                if n == goal:
+                    path, k = [], key(n, env)
+                    while k is not None:
+                        path.append(k[0])
+                        k = prev[k]
+                    return list(reversed(path))
+                if len(prev) > max_states:
+                    return self.path_avoiding(start, goal, avoid, labels_excluded, pruned_edges)
+                for s, lab, e2 in step(n, env):
+                    if s in avoid:
+                        continue
+                    k = key(s, e2)
+                    if k in prev:
+                        continue
+                    prev[k] = key(n, env)
+                    todo.append((s, e2))
+        return None
+
     def dominators(self, entry=ENTRY):
         """node -> set of dominators (iterative; graphs are tiny)."""
         nodes = self.reachable_from(entry)
